@@ -577,6 +577,9 @@ def check_translation(pid):
         if t in cached["proved"]:
             res["theorems"].append(cached.get("semantic", {}).get(t, t))
     res["theorems"] += [t for t in want_code if t in cached.get("code", [])]
+    # operators whose generated definition equals the model only semantically (on the reals): their floating-point
+    # behaviour may have changed, which the exact instances cannot see -> the driver searches harder (sl/deep.py)
+    res["semantic_only"] = sorted(t[4:-3] for t in want if t in cached.get("semantic", {}))
     if "*" in cached["failed"]:
         res["errors"].append("the model's tie to src/bi.rs is broken: " + cached["failed"]["*"])
     for t in want:
@@ -660,7 +663,9 @@ def check_proofs(pid):
     res = _check_proofs(pid)
     tr = check_translation(pid)
     tc = check_translation_checks(pid)
-    tr = {"theorems": tr["theorems"] + tc["theorems"], "errors": tr["errors"] + tc["errors"]}
+    tr = {"theorems": tr["theorems"] + tc["theorems"], "errors": tr["errors"] + tc["errors"],
+          "semantic_only": tr.get("semantic_only", [])}
+    res["semantic_only"] = tr.get("semantic_only", [])
     if tr["theorems"] or tr["errors"]:
         res["theorems"] = res.get("theorems", []) + tr["theorems"]
         res["obligations"] = res.get("obligations", 0) + len(tr["theorems"]) + len(tr["errors"])
